@@ -57,5 +57,16 @@ Theorem nwchem_write_total : nw_write_total_stmt.
 Proof. exact NwchemSpec.nw_write_total. Qed.
 Print Assumptions nwchem_write_total.
 
+From BSE Require Import Model.G94 Proofs.G94Defs.
+From BSE Require Proofs.G94Spec.
+(* and the Gaussian94 electron part (Model/G94.v): every number, with the exponent marker the writer prints (D), is a token *)
+Theorem gaussian94_no_number_lost : g94_no_number_lost_stmt.
+Proof. exact G94Spec.g94_no_number_lost. Qed.
+Print Assumptions gaussian94_no_number_lost.
+
+Theorem gaussian94_write_total : g94_write_total_stmt.
+Proof. exact G94Spec.g94_write_total. Qed.
+Print Assumptions gaussian94_write_total.
+
 Example some_writer_recontracts : exists w, assoc "nwchem" writer_map = Some w /\ forallb recontracting (w_pipeline w) = true /\ w_pipeline w <> [].
 Proof. eexists; split; [vm_compute; reflexivity|]. split; [vm_compute; reflexivity | discriminate]. Qed.
